@@ -341,7 +341,21 @@ impl<const N: usize> Exec<N> {
     // the five basic operations, with all model-based and history-based clauses
     // ------------------------------------------------------------------
 
+    /// Strict form: the first failing clause, observational or not, ends the call.
     pub(crate) fn run_op(&mut self, i: usize, op: &Op) -> Result<OpRet, Failure> {
+        let mut soft = None;
+        let r = self.run_op_inner(i, op, &mut soft)?;
+        match soft {
+            Some(f) => Err(f),
+            None => Ok(r),
+        }
+    }
+
+    /// The call with all its clauses. A failing *observational* clause (one that does not stop the
+    /// model from following the implementation: stale content after add(), a wrong kid()/kids()/
+    /// data() answer, a safety clause of C01) is put into `soft` and the step is completed, so
+    /// that a check whose property does not own that clause can go on with the run.
+    pub(crate) fn run_op_inner(&mut self, i: usize, op: &Op, soft: &mut Option<Failure>) -> Result<OpRet, Failure> {
         let probes = self.view.probe_labels();
         let poisoned = self.view.insts[i].as_ref().unwrap().poisoned;
         let g = self.gs[i].as_mut().unwrap();
@@ -469,18 +483,22 @@ impl<const N: usize> Exec<N> {
                     // C04: blank slate
                     if let Some(vo) = obs.verts.iter().find(|x| x.v == *v) {
                         if !vo.kids.is_empty() {
-                            return fail(
+                            if soft.is_none() {
+                                *soft = fail::<()>(
                                 "add.not-blank.edges",
                                 &["C04", "C03"],
                                 format!("add(ν{v}) on an absent id came back with edges {:?}", vo.kids),
-                            );
+                            ).err();
+                            }
                         }
                         if vo.vprint.contains('Δ') {
-                            return fail(
+                            if soft.is_none() {
+                                *soft = fail::<()>(
                                 "add.not-blank.data",
                                 &["C04", "C03"],
                                 format!("add(ν{v}) on an absent id came back with data: {}", vo.vprint),
-                            );
+                            ).err();
+                            }
                         }
                     } else {
                         return fail(
@@ -496,11 +514,13 @@ impl<const N: usize> Exec<N> {
                         "probe.add_present_ungrouped"
                     });
                     if let Some(d) = prev.diff(&obs) {
-                        return fail(
+                        if soft.is_none() {
+                                *soft = fail::<()>(
                             "add.present-changed",
                             clauses::C04,
                             format!("add(ν{v}) on a present vertex changed answers: {d}"),
-                        );
+                        ).err();
+                            }
                     }
                 }
             }
@@ -548,11 +568,13 @@ impl<const N: usize> Exec<N> {
                         } else {
                             clauses::C03
                         };
-                        return fail(
+                        if soft.is_none() {
+                                *soft = fail::<()>(
                             "data.wrong-value",
                             owners,
                             format!("data(ν{v}) returned {val:?}, last put was {:?}", out.value),
-                        );
+                        ).err();
+                            }
                     }
                 }
                 if out.first_read {
@@ -621,9 +643,15 @@ impl<const N: usize> Exec<N> {
             );
         }
         if let Some(f) = c01 {
-            return Err(f);
+            if soft.is_none() {
+                *soft = Some(f);
+            }
         }
-        check_edges(&obs, &inst.m, &probes)?;
+        if let Err(f) = check_edges(&obs, &inst.m, &probes) {
+            if soft.is_none() {
+                *soft = Some(f);
+            }
+        }
         inst.last_obs = obs;
         inst.version += 1;
         inst.age += 1;
@@ -696,10 +724,18 @@ impl<const N: usize> Exec<N> {
 
     /// Apply one of the five basic ops to `i` and mirror it on its followers.
     pub(crate) fn op_with_followers(&mut self, i: usize, op: &Op) -> Result<OpRet, Failure> {
-        let ret = match self.run_op(i, op) {
+        let mut soft = None;
+        let ret = match self.run_op_inner(i, op, &mut soft) {
             Ok(r) => r,
             Err(e) => return Err(self.attribute(i, op, e)),
         };
+        if let Some(f) = soft {
+            let f = self.attribute(i, op, f);
+            if self.owned(&f) {
+                return Err(f);
+            }
+            self.stats.bump(&format!("foreign.passed_over.{}", f.clause));
+        }
         let followers = self.view.followers(i);
         let mut touched = vec![i];
         for (f, kind) in followers {
@@ -712,7 +748,15 @@ impl<const N: usize> Exec<N> {
                 LinkKind::Reload => clauses::C08,
                 LinkKind::Clone => clauses::C10,
             };
-            let fret = match self.run_op(f, op) {
+            let mut fsoft = None;
+            let fres = self.run_op_inner(f, op, &mut fsoft);
+            let hard = fres.is_err();
+            let fres = match (fres, fsoft) {
+                (Err(e), _) => Err(e),
+                (Ok(_), Some(e)) => Err(e),
+                (Ok(r), None) => Ok(r),
+            };
+            let fret = match fres {
                 Ok(r) => r,
                 Err(mut e) => {
                     // the follower failed where the leader did not: that is the twin's property —
@@ -731,7 +775,13 @@ impl<const N: usize> Exec<N> {
                         LinkKind::Reload => "reload.diverges-in-continuation",
                         LinkKind::Clone => "clone.diverges-in-continuation",
                     };
-                    return Err(e);
+                    if hard || self.owned(&e) {
+                        return Err(e);
+                    }
+                    // observational, and not this check's business: the twin has left lockstep
+                    self.stats.bump(&format!("foreign.passed_over.{}", e.clause));
+                    self.view.insts[f].as_mut().unwrap().leader = None;
+                    continue;
                 }
             };
             let same = match (&ret, &fret, kind) {
@@ -762,6 +812,14 @@ impl<const N: usize> Exec<N> {
         }
         self.check_untouched(&touched)?;
         Ok(ret)
+    }
+
+    /// Does the property this run is judged for own the failure? (No property: every clause counts.)
+    pub(crate) fn owned(&self, f: &Failure) -> bool {
+        match &self.view.cfg.judge {
+            Some(p) => f.owners.iter().any(|o| o == p),
+            None => true,
+        }
     }
 
     pub(crate) fn usable(&self, i: usize) -> bool {
